@@ -357,10 +357,10 @@ def fixed_cases():
 def recipes(rnd, scale):
     rc = fixed_cases()
     rc += gen_new(rnd, 200 * scale)
-    rc += gen_addsub(rnd, 460 * scale)
+    rc += gen_addsub(rnd, 420 * scale)
     rc += gen_muldiv(rnd, 560 * scale)
     rc += gen_unary(rnd, 150 * scale)
-    rc += gen_divmod(rnd, 330 * scale)
+    rc += gen_divmod(rnd, 290 * scale)
     rc += gen_trig(rnd, 60 * scale)
     return rc
 
